@@ -394,3 +394,8 @@ def copy_json_kwargs(kw):
     """deep copy of a compute_features kwargs dict that keeps tuples (amp_threshes)"""
     import copy
     return copy.deepcopy(kw)
+
+
+def case_key_json(o):
+    import json
+    return json.dumps(o, sort_keys=True)
